@@ -33,7 +33,12 @@ use tokio::time::Instant;
 // ---------------------------------------------------------------------------
 // Mock clock
 
-/// Integer-seconds clock for backend `L`: `now() = base + secs`.
+/// One tick of the model's clock in milliseconds. Deliberately not a whole number of seconds, so that code
+/// which rounds `Instant`s or `Duration`s to seconds behaves differently from code that does not.
+pub const TICK_MS: u64 = 250;
+
+/// Integer-tick clock for backend `L`: `now() = base + secs * TICK_MS` (the field is called `secs` for
+/// historical reasons; it counts ticks).
 #[derive(Clone, Debug)]
 pub struct MockClock {
     secs: Arc<AtomicU64>,
@@ -65,9 +70,9 @@ impl MockClock {
     pub fn secs_of(stamp: Instant) -> i64 {
         let base = clock_base();
         if stamp >= base {
-            (stamp - base).as_secs() as i64
+            ((stamp - base).as_millis() / TICK_MS as u128) as i64
         } else {
-            -((base - stamp).as_secs() as i64)
+            -(((base - stamp).as_millis() / TICK_MS as u128) as i64)
         }
     }
 }
@@ -82,7 +87,7 @@ impl Default for MockClock {
 
 impl TimeProvider for MockClock {
     fn now(&self) -> Instant {
-        clock_base() + Duration::from_secs(self.secs())
+        clock_base() + Duration::from_millis(self.secs() * TICK_MS)
     }
 }
 
@@ -159,7 +164,11 @@ macro_rules! impl_guardlike {
             fn try_insert(&mut self, v: Val) -> Result<Val, ()> {
                 match self.0.try_insert(($from)(v)) {
                     Ok(x) => Ok(($to)(&*x)),
-                    Err(_) => Err(()),
+                    // `AlreadyExists` hands the rejected value back; if it is not the value that was passed
+                    // in, the call is reported with a value no client ever stores, i.e. as a differing result
+                    Err(lockable::TryInsertError::AlreadyExists { value }) => {
+                        if ($to)(&value) == v { Err(()) } else { Ok(Val::MIN + 7) }
+                    }
                 }
             }
             fn value_or_insert(&mut self, v: Val) -> Val {
@@ -634,7 +643,7 @@ impl Cont {
     /// `lock_entries_unlocked_for_at_least(d)` (L only); `None` = `Duration::MAX`.
     pub fn expire(&self, owned: bool, d: Option<u64>) -> Vec<BoxGuard> {
         let dur = match d {
-            Some(s) => Duration::from_secs(s),
+            Some(s) => Duration::from_millis(s * TICK_MS),
             None => Duration::MAX,
         };
         match self {
